@@ -93,3 +93,53 @@ mod rvr {
         }
     }
 }
+
+#[allow(unused_imports, dead_code)]
+mod cjson {
+    //! Unit cjson (C01): the number gate of canonical JSON. For every serde_json::Number built from
+    //! any i64, u64 or f64, `CanonicalJsonValue::try_from` yields Integer(n) with the same value iff
+    //! the number is an integer in [-(2^53-1), 2^53-1]; everything else (fractions, exponents - they
+    //! arrive as f64 -, negative zero as f64, out-of-range integers) is rejected with IntConvert,
+    //! never altered. js_int::Int::try_from is compiled in, not assumed.
+    use crate::{canonical_json::CanonicalJsonError, CanonicalJsonValue};
+    use serde_json::{Number, Value as JsonValue};
+
+    const MAX: i64 = 9_007_199_254_740_991; // 2^53 - 1
+
+    fn check(num: Number, expect: Option<i64>) {
+        let r = CanonicalJsonValue::try_from(JsonValue::Number(num));
+        match (&r, expect) {
+            (Ok(CanonicalJsonValue::Integer(i)), Some(v)) => assert!(i64::from(*i) == v),
+            (Err(CanonicalJsonError::IntConvert), None) => {}
+            _ => assert!(false),
+        }
+        core::mem::forget(r);
+    }
+
+    //#ob:i64_numbers_kept_iff_in_js_int_range
+    #[kani::proof]
+    #[kani::unwind(2)]
+    fn cjson_number_i64() {
+        let v: i64 = kani::any();
+        check(Number::from(v), if v >= -MAX && v <= MAX { Some(v) } else { None });
+    }
+
+    //#ob:u64_numbers_kept_iff_in_js_int_range
+    #[kani::proof]
+    #[kani::unwind(2)]
+    fn cjson_number_u64() {
+        let v: u64 = kani::any();
+        check(Number::from(v), if v <= MAX as u64 { Some(v as i64) } else { None });
+    }
+
+    //#ob:float_numbers_always_rejected
+    #[kani::proof]
+    #[kani::unwind(2)]
+    fn cjson_number_f64() {
+        // fractions, exponents, -0.0, 1.0, 1e2 ... : serde_json keeps them as f64; canonical JSON has integers only
+        let v: f64 = kani::any();
+        if let Some(n) = Number::from_f64(v) {
+            check(n, None);
+        }
+    }
+}
